@@ -395,15 +395,15 @@ def _m(name, old, new, rule, file=GRID, control=False, count=1):
 
 MUTANTS = [
     # --- map_geometry: plane / line fit
-    _m("compute-normal-not-centred", "    v = pts - center\n", "    v = pts\n", "R4", file=MAPG, control=True),
+    _m("compute-normal-not-centred", "    v = pts - center\n", "    v = pts\n", "R4", file=MAPG),
     _m("compute-tangent-normalised-in-xy", "    return tangent / np.linalg.norm(tangent)", "    return tangent / np.linalg.norm(tangent[:2])", "R4", file=MAPG),
     _m("compute-tangent-from-origin", "    tangent = pts - mean_pts\n", "    tangent = pts\n", "R4", file=MAPG),
     # --- kernels: a coordinate singled out (invisible for grids in the xy-plane / lines off the z-axis)
     _m("1d-norm-drops-z", "return np.sqrt(u[0] * u[0] + u[1] * u[1] + u[2] * u[2])", "return np.sqrt(u[0] * u[0] + u[1] * u[1])", "R2"),
     _m("2d-oriented-normal-assumes-xy-plane", "                    return plane_normal / len_normal",
        "                    return np.array([0.0, 0.0, np.sign(plane_normal[2])])", "*"),
-    _m("2d-fallback-normal-assumes-xy-plane", "                return pp.map_geometry.compute_normal(self.nodes)", "                return np.array([0.0, 0.0, 1.0])", "*", control=True),
-    _m("2d-area-from-xy-only", "self.face_areas = np.sqrt(np.square(tangent).sum(axis=0))", "self.face_areas = np.sqrt(np.square(tangent[:2]).sum(axis=0))", "R1"),
+    _m("2d-fallback-normal-assumes-xy-plane", "                return pp.map_geometry.compute_normal(self.nodes)", "                return np.array([0.0, 0.0, 1.0])", "*"),
+    _m("2d-area-from-xy-only", "self.face_areas = np.sqrt(np.square(tangent).sum(axis=0))", "self.face_areas = np.sqrt(np.square(tangent[:2]).sum(axis=0))", "R1", control=True),
     # --- kernels: a point combination that is not affine (weights do not sum to one on mixed grids)
     # --- independently seeded changes (campaign of the coordinator): position-dependent DECISIONS
     _m("seed-2d-orientation-threshold-from-face-centres", "if len_normal < 1e-5 * np.mean(self.face_areas) ** 2:", "if len_normal < 1e-5 * np.mean(self.face_centers) ** 2:", "R6"),
